@@ -346,10 +346,16 @@ def run_coq_cases(tag, mods, items, timeout=1200, preamble=""):
 
 def parse_verdict(s):
     """'mkv true true false true' -> (True, True, False, True)"""
-    m = re.match(r"mkv (true|false) (true|false) (true|false) (true|false)", s or "")
+    m = re.search(r"mkv (true|false) (true|false) (true|false) (true|false)", s or "")
     if not m:
         return None
     return tuple(x == "true" for x in m.groups())
+
+
+def parse_covered(s):
+    """'(mkv ..., true)' -> True: the scenario meets the decidable hypotheses of the whole-history theorem"""
+    m = re.search(r",\s*(true|false)\s*\)\s*$", s or "")
+    return None if not m else m.group(1) == "true"
 
 
 # ------------------------------------------------------------------------------------------ evidence / verdicts
